@@ -1,6 +1,6 @@
 """C01 — random-access AES-CTR reads equal whole-stream decryption (3DS and DSi mode)."""
 from filestack import ctr_slot
-from stackcheck import StackCheck, gen_ops
+from stackcheck import StackCheck, add_owner_moves, gen_ops
 
 CTR_POOL = [0, 1, 0xFFFFFFFFFFFFFFFF, (1 << 64) - 3, (1 << 127) + 12345, (1 << 128) - 40, 0xDEADBEEF << 56]
 
@@ -111,7 +111,10 @@ class C01(StackCheck):
             return {'huge': True, 'kind': rng.pick(['ctr', 'ctr', 'twl']), 'key': rng.rbytes(16),
                     'ctr': rng.pick(CTR_POOL[:3] + [rng.getrandbits(100)]), 'seed': rng.rbytes(8), 'ops': ops}
         node, ln = gen_crypto_node(rng, rng.pick(['ctr', 'twl']), [0, 1, 15, 16, 17, 31, 32, 40, 64, 100])
-        return {'node': node, 'ops': gen_ops(rng, ln, writes=False, queries=False)}
+        ops = gen_ops(rng, ln, writes=False, queries=False)
+        if rng.chance(0.35):
+            ops = add_owner_moves(rng, ops, ln)
+        return {'node': node, 'ops': ops}
 
     def run_case(self, case, drv):
         if not case.get('huge'):
